@@ -16,8 +16,8 @@ site('expr.c', 'assignexpr', 'error', 'left side of assignment expression has in
      X('ux_ = ux_'), X('*vp_ = 1', gcc=True), X('*up_ = *up_'))
 site('expr.c', 'assignexpr', 'error', 'left side of assignment expression is not an lvalue',
      X('5 = h_v'), X('h_sink(1) = 2'), X('-h_v = 1'), X('h_sink += 1'),
-     X('sizeof(sv_.arr_ = 0)', finding='C10-array-member-lvalue', only=('XS', 'XB'), gcc=True,
-       note='a member array keeps the lvalue flag after decaying; only qbe.c:funclval rejects the store, so unevaluated contexts accept it'), X('h_v++ = 1'), X('5 <<= 1'))
+     X('sizeof(sv_.arr_ = 0)', note='regression (fixed df7da54): a member array kept the lvalue flag after decaying'),
+     X('sv_.arr_ = 0'), X('(&sv_)->arr_ += 1', note='regression (fixed df7da54)'), X('sp_->arr_ = sp_->arr_'), X('h_v++ = 1'), X('5 <<= 1'))
 site('expr.c', 'builtinfunc', 'error', '__builtin_nanf currently only supports empty string literals',
      X('__builtin_nanf("x")', gcc=W_BUILTIN), X('__builtin_nanf(h_v)', gcc=W_BUILTIN))
 site('expr.c', 'builtinfunc', 'error', 'expected type name',
@@ -66,7 +66,7 @@ site('expr.c', 'exprassign', 'error', 'assignment to %s type must be from compat
      X('sv_ = tv_'), X('uv_ = 1'), X('sv_ = sp_'),
      X('gs_(tv_)'), X('gs_(1)'))
 site('expr.c', 'exprassign', 'error', 'assignment to arithmetic type must be from arithmetic type',
-     X('h_v = ip_'), X('fl_ = sv_'), X('g_(1, ip_)'), X('h_v = "abc"'), T('decl', 'int x_ = (void *)0;', pre=P),
+     X('h_v = ip_'), X('h_v += ip_', note='regression (fixed 344cd20): compound assignment constraints'), X('fl_ = sv_'), X('g_(1, ip_)'), X('h_v = "abc"'), T('decl', 'int x_ = (void *)0;', pre=P),
      T('stmt', 'return ip_;', pre=P), X('h_v = (void)0'))
 site('expr.c', 'exprassign', 'error', 'assignment to bool must be from arithmetic, pointer, or nullptr_t type',
      X('b_ = sv_'), X('b_ = uv_'), T('decl', '_Bool x_ = sv_;', pre=P, only=('B0', 'B1')))
@@ -75,7 +75,7 @@ site('expr.c', 'exprassign', 'error', 'assignment to nullptr_t must be from null
 site('expr.c', 'exprassign', 'error', 'assignment to pointer discards qualifiers',
      X('ip_ = cip_'), X('ip_ = &ci_'), X('vp_ = cip_'), T('decl', 'char *x_ = (const char *)0 + 1;'))
 site('expr.c', 'exprassign', 'error', 'assignment to pointer must be from pointer or null pointer constant',
-     X('ip_ = 5'), X('ip_ = 1.0'), X('ip_ = sv_'), X('ip_ = h_v'), X('fp_ = 1'), T('decl', 'int *x_ = 1;'))
+     X('ip_ = 5'), X('ip_ -= ip_', note='regression (fixed 344cd20): pointer -= pointer'), X('ip_ = 1.0'), X('ip_ = sv_'), X('ip_ = h_v'), X('fp_ = 1'), T('decl', 'int *x_ = 1;'))
 site('expr.c', 'exprassign', 'error', 'base types of pointer assignment must be compatible or void',
      X('ip_ = dp_'), X('ip_ = &sv_'), X('fp_ = ip_'), X('sp_ = &tv_'), T('decl', 'int *x_ = (char *)0 + 1;'))
 site('expr.c', 'generic', 'error', 'expected typename for generic association', X('_Generic(h_v, 3: 1)'), X('_Generic(h_v, h_v: 1)'))
@@ -111,11 +111,9 @@ site('expr.c', 'mkbinaryexpr', 'error', "invalid operands to '%s' operator",
      X('ip_ == 1.5', "'=='"), X('1 != ip_', "'!='"), X('ip_ == sv_', "'=='"),
      X('ip_ < 1', "'<'"), X('sv_ >= sv_', "'>='"), X('0 > ip_', "'>'"), X('1.5 <= ip_', "'<='"), n=3)
 site('expr.c', 'mkbinaryexpr', 'error', "invalid operands to '+' operator",
-     X('ip_ + 1.0'), X('sv_ + 1'), X('ip_ + ip_'), X('1.5 + ip_'), X('ip_ += 1.5'),
-     X('h_v += ip_', finding='C10-compound-assign-unchecked', note='the result of int + pointer is stored into the int without the assignment constraints'))
+     X('ip_ + 1.0'), X('sv_ + 1'), X('ip_ + ip_'), X('1.5 + ip_'), X('ip_ += 1.5'))
 site('expr.c', 'mkbinaryexpr', 'error', "invalid operands to '-' operator",
-     X('1 - ip_'), X('ip_ - 1.5'), X('sv_ - 1'), X('ip_ - sv_'),
-     X('ip_ -= ip_', finding='C10-compound-assign-unchecked', note='pointer -= pointer: the ptrdiff_t result is stored into the pointer'))
+     X('1 - ip_'), X('ip_ - 1.5'), X('sv_ - 1'), X('ip_ - sv_'))
 site('expr.c', 'mkbinaryexpr', 'error', "left operand of '%s' operator must be scalar", X('sv_ && 1', "'&&'"), X('uv_ || 1', "'||'"))
 site('expr.c', 'mkbinaryexpr', 'error', "right operand of '%s' operator must be scalar", X('1 && sv_', "'&&'"), X('h_v || uv_', "'||'"))
 site('expr.c', 'mkbinaryexpr', 'error', "operands of '%s' operator must be integer",
@@ -138,7 +136,7 @@ site('expr.c', 'mkbinaryexpr', 'fatal', 'internal error: unknown binary operator
 site('expr.c', 'mkincdecexpr', 'error', "operand of '%s' operator is const qualified",
      X('++ci_', "'++'"), X('ci_--', "'--'"), X('(*cip_)++', "'++'"), X('--cip_[1]', "'--'"))
 site('expr.c', 'mkincdecexpr', 'error', "operand of '%s' operator must be an lvalue",
-     X('++5', "'++'"), X('h_sink(1)++', "'++'"), X('--(h_v + 1)', "'--'"), X('h_v++ ++', "'++'"))
+     X('++5', "'++'"), X('h_sink(1)++', "'++'"), X('--(h_v + 1)', "'--'"), X('h_v++ ++', "'++'"), X('sv_.arr_++', "'++'", note='regression (fixed df7da54)'), X('--sp_->arr_', "'--'"))
 site('expr.c', 'mkunaryexpr', 'error', "'&' operand is not an lvalue or function designator",
      X('&5'), X('&(h_v + 1)'), X('&h_v++'), X('5 .a'), X('h_sink(1).a'))
 site('expr.c', 'mkunaryexpr', 'error', 'cannot dereference non-pointer', X('*h_v'), X('*1.5'), X('*sv_'), X('**ip_'))
@@ -153,7 +151,7 @@ site('expr.c', 'postfixexpr', 'error', 'either array or index must be pointer ty
 site('expr.c', 'postfixexpr', 'error', "expected identifier after '%s' operator", X('sv_.(a)', "'.'"), X('sp_->5', "'->'"), X('sp_->', "'->'"))
 site('expr.c', 'postfixexpr', 'error', 'index is not an integer type', X('ip_[1.0]'), X('ip_[dp_]'), X('sv_.arr_[sv_]'))
 site('expr.c', 'postfixexpr', 'error', 'not enough arguments for function call', X('g_(1)'), X('g_()'),
-     X('h_sink()', finding='C10-variadic-too-few-args', note='fewer arguments than named parameters of a variadic function'))
+     X('h_sink()', note='regression (fixed f532f12): fewer arguments than named parameters of a variadic function'))
 site('expr.c', 'postfixexpr', 'error', 'too many arguments for function call', X('g_(1, 2, 3)'), X('fp_(1)'))
 site('expr.c', 'postfixexpr', 'error', "struct/union has no member named '%s'", X('sv_.zz_', "'zz_'"), X('sp_->c', "'c'"), X('uv_.b', "'b'"))
 site('expr.c', 'postfixexpr', 'expect', "TCOMMA or ')' after function call argument", X('g_(1 2)'), X('h_sink(1, 2 ; 3)'))
